@@ -1,8 +1,10 @@
 import Driver.Cache
+import Driver.Verify
 /-! Model driver: `driver <family>` reads trace lines on stdin and prints one prediction per step. -/
 def main (args : List String) : IO UInt32 := do
   match args with
   | ["cache"] => Driver.Cache.main
+  | ["verify"] => Driver.Verify.main
   | _ => do
     (← IO.getStderr).putStrLn "usage: driver <family>"
     return 2
